@@ -134,6 +134,13 @@ def main(argv=None):
             return replay.run(prop, args.replay)
         funcs, obligations, undecided_fns, solve_s, src = prove(prop, tier, R)
         groups = group(obligations)
+        # a function the engine could not execute completely proves nothing: none of its obligations count
+        und_keys = {k for k, _ in undecided_fns}
+        for n, g in groups.items():
+            if any(n.startswith(k + "/") or n.startswith(k + "{") for k in und_keys) and g["verdict"] == "discharged":
+                g["verdict"] = "undecided"
+                for o in g["obs"]:
+                    o.detail = "function undecided: " + next(w for k, w in undecided_fns if n.startswith(k))
         lock = read_lock().get(prop, set())
         known = [k for k in read_known() if k["property"] == prop]
         if args.write_lock:
@@ -202,6 +209,14 @@ def main(argv=None):
                 print(f"UNDECIDED property={prop} obligation={g['name']}: {next((o.detail for o in g['obs'] if o.verdict == 'undecided'), '')}")
             for n in missing:
                 print(f"UNDECIDED property={prop} obligation={n}: required obligation was not generated (contract out of date)")
+        if bounded and bounded.get("crashes") and rc == 0:
+            rc = 3
+            for cr in bounded["crashes"][:3]:
+                print(f"CHECKER-ERROR property={prop} bounded driver crashed: {cr['error']} on {cr['task'][:120]}")
+        if bounded and bounded.get("timeouts") and rc == 0:
+            rc = 2
+            for t in bounded["timeouts"][:3]:
+                print(f"UNDECIDED property={prop} bounded case ran out of time/memory: {str(t)[:160]}")
         for g in new_refuted:
             print(f"NOTE property={prop} obligation={g['name']} is refuted but not locked (not required; see DESIGN 2.8)")
         write_evidence(prop, tier, seed, R, funcs, groups, lock, bounded, violations, known_hits, undecided_fns, solve_s,
